@@ -29,7 +29,7 @@ CLAIM = ("The void-element decision is one boolean function used consistently by
 NOT_DECIDED = ("the traversal itself (index arithmetic, tail handling, balance of start/end tags), rebuild equality, equality "
                "of the etree and dom streams.")
 MODULES = ["treewalkers/base.py", "treewalkers/etree.py", "treewalkers/dom.py", "treewalkers/__init__.py", "filters/lint.py",
-           "serializer.py", "treeadapters/sax.py", "constants.py"]
+           "serializer.py", "treeadapters/sax.py", "constants.py", "treebuilders/etree.py", "treebuilders/etree_lxml.py"]
 CORE_KINDS = ["Doctype", "Characters", "SpaceCharacters", "StartTag", "EndTag", "EmptyTag", "Comment"]
 
 
@@ -224,6 +224,55 @@ def run(ctx):
             wrong=[(n_yields == 3 and len(conds) < 3 and all(c in ("left", "middle", "right") for c in conds), None)])
     sc = ce.const("treewalkers/base.py", "spaceCharacters")
     r.check("R11.5", set(sc) == set("\t\n\x0c\r "), "space-set", "treewalkers/base.py", "walker white space is %r" % sc)
+    clark_names(ctx)
+
+
+def clark_names(ctx):
+    """R11.6: ElementTree stores qualified names as {namespace}local.  The pattern that splits them must end the namespace at
+    the *first* `}` (a namespace IRI cannot contain one, a local name produced by the tokenizer can), in the walkers and in
+    the builders' serializers alike."""
+    import re._parser as sp
+    r = ctx.r
+    r.rule("R11.6", "the {namespace}local splitter ends the namespace at the first closing brace", floor=2)
+    n = 0
+    for rel in ("treewalkers/etree.py", "treebuilders/etree.py", "treebuilders/etree_lxml.py"):
+        try:
+            mod = ctx.repo.module(rel)
+        except AnalysisError:
+            continue
+        for st in mod.tree.body:
+            if isinstance(st, ast.Assign) and norm(st.targets[0]) == "tag_regexp" and isinstance(st.value, ast.Call) and st.value.args:
+                pat = ctx.ce.try_eval(st.value.args[0], mod)
+                if not isinstance(pat, str):
+                    continue
+                n += 1
+                parsed = list(sp.parse(pat))
+                key = "clark-split::%s" % rel
+                where = "%s:%d" % (rel, st.lineno)
+                shape = len(parsed) == 4 and parsed[0] == (sp.LITERAL, ord("{")) and parsed[1][0] == sp.SUBPATTERN and \
+                    parsed[2] == (sp.LITERAL, ord("}")) and parsed[3][0] == sp.SUBPATTERN
+                if not shape:
+                    r.idiom("R11.6", False, key, where, "tag_regexp %r is not {(..)}(..)" % pat)
+                    continue
+                g1 = list(parsed[1][1][3])
+                ok = wrong = False
+                if len(g1) == 1 and g1[0][0] in (sp.MAX_REPEAT, sp.MIN_REPEAT):
+                    item = list(g1[0][1][2])
+                    if len(item) == 1 and item[0][0] == sp.IN:
+                        cls = item[0][1]
+                        ok = cls[0] == (sp.NEGATE, None) and (sp.LITERAL, ord("}")) in cls
+                    elif len(item) == 1 and item[0] == (sp.NOT_LITERAL, ord("}")):
+                        ok = True
+                    elif len(item) == 1 and item[0][0] == sp.ANY:
+                        ok = g1[0][0] == sp.MIN_REPEAT          # lazy .*? also stops at the first brace
+                        wrong = not ok
+                r.idiom("R11.6", ok, key, where, "tag_regexp %r: namespace group not recognised" % pat,
+                        wrong=[(wrong, "%s: tag_regexp %r matches the namespace greedily: for an element or attribute whose local name "
+                                       "contains `}` (e.g. <x}y>, stored as {ns}x}y) the name is split at the last brace and the walker "
+                                       "reports namespace `ns}x`, name `y`" % (rel, pat))],
+                        detail={"pattern": pat})
+    if n < 2:
+        raise AnalysisError("R11.6: found %d tag_regexp definitions (expected >= 2)" % n)
 
 
 def thorough(ctx):
@@ -236,6 +285,8 @@ def mutants():
     B = "treewalkers/base.py"
     E = "treewalkers/etree.py"
     return [
+        T("clark-greedy-walker", "treewalkers/etree.py", 'tag_regexp = re.compile("{([^}]*)}(.*)")', 'tag_regexp = re.compile("{(.*)}(.*)")', "R11.6"),
+        T("clark-greedy-builder", "treebuilders/etree.py", 'tag_regexp = re.compile("{([^}]*)}(.*)")', 'tag_regexp = re.compile("{(.+)}(.*)")', "R11.6"),
         T("void-any-namespace", B, "                if (not namespace or namespace == namespaces[\"html\"]) and name in voidElements:\n                    for token in self.emptyTag(",
           "                if name in voidElements:\n                    for token in self.emptyTag(", "R11.1"),
         T("end-guard-drift", B, "                        if (namespace and namespace != namespaces[\"html\"]) or name not in voidElements:",
